@@ -6,6 +6,7 @@ After a `panic` answer the case is dead: further lines of the case answer `dead`
 -/
 import HvSim.Model.Sim
 import HvSim.Model.Enum
+import HvSim.Model.Inline
 open HvSim
 
 abbrev H := Hook Nat Nat
@@ -15,6 +16,14 @@ structure St where
   dead : Bool := false
 
 /-! ### parsing -/
+
+def parseListC (sep : String) (s : String) : Option (List Nat) :=
+  if s == "-" then some [] else (s.splitOn sep).mapM (fun p => p.toNat?)
+def showListC (l : List Nat) : String := if l.isEmpty then "-" else ",".intercalate (l.map toString)
+def showCallsOf (log : List Call) : String :=
+  if log.isEmpty then "-" else ",".intercalate (log.reverse.map fun c => match c with
+    | .u lo hi v => s!"u{lo}:{hi}:{v}"
+    | .b v => if v then "b1" else "b0")
 
 def parseList (sep : String) (s : String) : Option (List Nat) :=
   if s == "-" then some [] else (s.splitOn sep).mapM (fun p => p.toNat?)
@@ -44,6 +53,54 @@ def parseArgs : List String → Args → Option Args
     | ["m", v] => (parseMap v).bind fun l => parseArgs ws { a with m := l }
     | ["m2", v] => (parseMap v).bind fun l => parseArgs ws { a with m2 := l }
     | _ => none
+
+def parsePairs (s : String) : Option (List (Nat × Nat)) :=
+  if s == "-" then some [] else
+  (s.splitOn ",").mapM fun e =>
+    match e.splitOn ":" with
+    | [k, v] => do
+      let k ← k.toNat?
+      let v ← v.toNat?
+      pure (k, v)
+    | _ => none
+
+def showPairs (l : List (Nat × Nat)) : String :=
+  if l.isEmpty then "-" else ",".intercalate (l.map fun e => s!"{e.1}:{e.2}")
+
+def argOf (ws : List String) (key : String) : Option String :=
+  ws.findSome? fun w => match w.splitOn "=" with
+    | [k, v] => if k == key then some v else none
+    | _ => none
+
+/-- `inline <kind> <tape> a=.. [b=..] [go=..] [oo=..]` -/
+def inlineOp (kind : String) (tape : List Nat) (ws : List String) : Option String :=
+  let d : Drv := ⟨tape, []⟩
+  let fin := fun (o : Option (String × Drv)) => match o with
+    | some (out, d') => s!"out={out} calls={showCallsOf d'.log}"
+    | none => "panic"
+  match kind with
+  | "sOrder" => do
+    let a ← (argOf ws "a").bind (parseListC ",")
+    pure (fin ((streamOrderAuto a d).map fun (r, d') => (showListC r, d')))
+  | "merge" => do
+    let a ← (argOf ws "a").bind (parseListC ",")
+    let b ← (argOf ws "b").bind (parseListC ",")
+    let (r, _, d') := mergeOrderedAuto a b d
+    pure (fin (some (showListC r, d')))
+  | "kOrder" => do
+    let a ← (argOf ws "a").bind parsePairs
+    let go ← (argOf ws "go").bind (parseListC ",")
+    let oo ← (argOf ws "oo").bind (parseListC ",")
+    pure (fin ((keyedStreamOrderAuto a go oo d).map fun (r, d') => (showPairs r, d')))
+  | "pOrder" => do
+    let a ← (argOf ws "a").bind parsePairs
+    pure (fin ((partiallyOrderedAuto a d).map fun (r, d') => (showPairs r, d')))
+  | "kMerge" => do
+    let a ← (argOf ws "a").bind parsePairs
+    let b ← (argOf ws "b").bind parsePairs
+    let (r, _, d') := keyedMergeOrderedAuto a b d
+    pure (fin (some (showPairs r, d')))
+  | _ => none
 
 def mkHook (kind : String) (a : Args) : Option H :=
   match kind with
@@ -179,6 +236,10 @@ def step (st : St) (line : String) : St × String :=
         | some (h', out) => (setHook st n h', s!"out={showMsgs out}")
         | none => ({ st with dead := true }, "panic")
     | ["canrun"] => (st, showBool (tickCanRun st.hooks))
+    | "inline" :: kind :: t :: rest =>
+      match parseList "," t with
+      | some tape => (st, (inlineOp kind tape rest).getD "bad-op")
+      | none => (st, "bad-op")
     | ["run", t] =>
       match parseList "," t with
       | some tape =>
